@@ -71,7 +71,10 @@ func hostileTypes() []hType {
 	return ts
 }
 
-var hostileLocations = []string{"path", "query", "header", "cookie", "body", "body_attr", "map_params",
+// the *_only locations carry the attribute ALONE in the payload: the CLI payload builder, the request
+// encoder and the decoder of a method then have exactly one flag / parameter (no body, no sibling
+// that declares or uses the shared err / body variables)
+var hostileLocations = []string{"path", "query", "header", "cookie", "query_only", "header_only", "cookie_only", "path_only", "body", "body_attr", "map_params",
 	"resp_header", "resp_cookie", "resp_body_attr", "err_header",
 	"p_path", "p_query", "p_header", "p_cookie", "p_body", "r_body", "r_header", "stream_payload", "stream_result"}
 
@@ -84,6 +87,18 @@ func hostileMethod(idx int, loc string, ht hType) *dg.Method {
 	h := &dg.HTTPMap{}
 	verb := "GET"
 	switch loc {
+	case "path_only":
+		m.Payload = pa(dg.A(dg.Obj(x(true))))
+		path += "/{x}"
+	case "query_only":
+		m.Payload = pa(dg.A(dg.Obj(x(false))))
+		h.Params = []dg.MapEntry{{Attr: "x"}}
+	case "header_only":
+		m.Payload = pa(dg.A(dg.Obj(x(false))))
+		h.Headers = []dg.MapEntry{{Attr: "x", Wire: "X-H"}}
+	case "cookie_only":
+		m.Payload = pa(dg.A(dg.Obj(x(false))))
+		h.Cookies = []dg.MapEntry{{Attr: "x", Wire: "ck"}}
 	case "path":
 		m.Payload = pa(dg.A(dg.Obj(x(true), other)))
 		path += "/{x}"
@@ -284,7 +299,7 @@ func degenerateMethod(idx int, t dg.Type, v dg.Validation, where string) *dg.Met
 // default / required with default), per type ----
 
 var ptrModes = []string{"req", "opt", "def", "reqdef"}
-var ptrLocations = []string{"path", "query", "header", "cookie", "body", "resp_header", "resp_cookie", "resp_body", "err_header", "err_body", "p_query_validated"}
+var ptrLocations = []string{"path", "query", "header", "cookie", "query_only", "header_only", "cookie_only", "body", "resp_header", "resp_cookie", "resp_body", "err_header", "err_body", "p_query_validated"}
 
 func ptrMethod(idx int, loc, mode string, ht hType) *dg.Method {
 	f := &dg.Field{Name: "x", A: dg.Attr{T: ht.t}}
@@ -300,6 +315,15 @@ func ptrMethod(idx int, loc, mode string, ht hType) *dg.Method {
 	h := &dg.HTTPMap{}
 	verb := "GET"
 	switch loc {
+	case "query_only":
+		m.Payload = pa(dg.A(dg.Obj(f)))
+		h.Params = []dg.MapEntry{{Attr: "x"}}
+	case "header_only":
+		m.Payload = pa(dg.A(dg.Obj(f)))
+		h.Headers = []dg.MapEntry{{Attr: "x", Wire: "X-H"}}
+	case "cookie_only":
+		m.Payload = pa(dg.A(dg.Obj(f)))
+		h.Cookies = []dg.MapEntry{{Attr: "x", Wire: "ck"}}
 	case "path":
 		m.Payload = pa(dg.A(dg.Obj(f, other)))
 		path += "/{x}"
